@@ -11,7 +11,8 @@
    two identities the property names, on box contents. *)
 From AK Require Import Base.Prelude Bytes.Text Bytes.FabHeader Bytes.BinFile
   Reader.Select Reader.BoxRead Reader.Level Reader.ReadSpec
-  Writers.Colander Writers.ColanderSpec Writers.CombineProofs Writers.Chef Writers.ChefProofs Writers.Pipeline.
+  Writers.Colander Writers.ColanderSpec Writers.CombineProofs Writers.Chef Writers.ChefProofs Writers.Pipeline
+  Plotfile.TextHeader Taste.Taste Plotfile.Abstract Writers.ColanderToolProofs Writers.ColanderPipeline Props.C05.
 
 (* Any finite sequence of operations, each of which preserves well-formedness
    and refines its pure counterpart, ends in a well-formed state whose
@@ -40,3 +41,33 @@ Theorem C14_cook_combine : forall fb new,
   /\ fab_data (cooked (all_comps (fab_nc fb)) new fb) = fab_data fb ++ concat new.
 Proof. exact cook_then_combine. Qed.
 Print Assumptions C14_cook_combine.
+
+(* The hypotheses of C14_pipeline discharged for colander: EVERY finite
+   sequence of colander runs (variable lists, level limits) whose pure
+   counterpart is defined - each run names an existing field and an admissible
+   limit - succeeds on the directory image of a good plotfile, ends on the
+   image of the composed pure operations, and every intermediate directory is
+   the image of a good plotfile. *)
+Theorem C14_colander_chain : forall ops pf pf',
+  good pf -> spec_run ops pf = Some pf' ->
+  run pdisk col_op tool_step ops (pf_disk pf) = Some (pf_disk pf') /\ good pf' /\
+  Forall (fun d => exists p, good p /\ d = pf_disk p) (states pdisk col_op tool_step ops (pf_disk pf)).
+Proof. exact colander_pipeline. Qed.
+
+(* ... and the validator accepts each of them (option sets not reaching the
+   binary-data check, any admissible limit): tool outputs are valid inputs. *)
+Theorem C14_colander_outputs_accepted : forall close ops pf pf' o limit lim,
+  good pf -> spec_run ops pf = Some pf' ->
+  eff_limit (g_max_level (pf_g pf')) limit = Some lim -> 0 <= lim ->
+  (t_data o && negb (t_headers o && t_shape o)) = false ->
+  taste_good close o limit (pf_disk pf') = true.
+Proof. exact colander_outputs_taste_good. Qed.
+
+(* non-vacuity: two runs on the example plotfile of C05 *)
+Example C14_ex_chain :
+  spec_run [([bs "b"; bs "zz"; bs "a"], None); ([bs "a"], Some 0)] AK.Props.C05.ex_pf
+  = Some (colander_spec [bs "a"] 0 (colander_spec [bs "b"; bs "zz"; bs "a"] 1 AK.Props.C05.ex_pf)).
+Proof. vm_compute. reflexivity. Qed.
+
+Print Assumptions C14_colander_chain.
+Print Assumptions C14_colander_outputs_accepted.
